@@ -4,7 +4,7 @@
 From Coq Require Import Sorting.Sorted Sorting.Permutation.
 From Sdns Require C02.Model C02.Proofs_Gen.
 From Sdns Require Import Common.Base Common.GoList Gen.C14 C14.Model
-  C14.Proofs_rsa C14.Proofs_b64 C14.Proofs_keytag C14.Proofs_rsamd5 C14.Proofs_canon C14.Proofs_verify C14.Proofs_offset C14.Proofs_walk C14.Proofs_loops C14.Proofs_c02 C14.Proofs_synth.
+  C14.Proofs_rsa C14.Proofs_b64 C14.Proofs_keytag C14.Proofs_rsamd5 C14.Proofs_canon C14.Proofs_verify C14.Proofs_offset C14.Proofs_walk C14.Proofs_loops C14.Proofs_c02 C14.Proofs_synth C14.Proofs_ds.
 Open Scope N_scope.
 
 (* (1) Key tag.  For every DNSKEY of every algorithm but RSAMD5 and every key
@@ -237,6 +237,78 @@ Theorem admitted_digests_are_the_documented_set : forall a,
              (is_supported_ds_digest a = true <-> ds_digest_hash a <> None).
 Proof. exact supported_digests_documented. Qed.
 Print Assumptions admitted_digests_are_the_documented_set.
+
+(* (6b) DS digest matching (session 4).  dsDigestMatches accepts a wanted digest exactly when it is the
+   RFC 4034 5.1.4 digest — one of the three hashes the table admits, over owner name in canonical wire
+   form | flags | protocol | algorithm | key material — of a key whose material decodes, is not empty
+   and does not exceed the documented ceiling of 4092 octets (the owner packs into 255 octets). *)
+Theorem ds_digest_is_the_rfc4034_digest_under_the_ceiling : forall (H : N -> list N -> list N) k dt want,
+  ds_digest_matches H k dt want = true <->
+  exists hid material owner,
+    ds_digest_hash dt = Some hid /\ want <> [] /\ hash_size hid = len want
+    /\ oversized (k_pub k) = false /\ b64_decode (k_pub k) = (material, true)
+    /\ material <> [] /\ len material <= 4092
+    /\ pack_name (canonical_name (k_name k)) (N.min (len (canonical_name (k_name k)) + 1) 255) = Some owner
+    /\ owner <> []
+    /\ H hid (owner ++ be16 (k_flags k) ++ [k_proto k; k_alg k] ++ material) = want.
+Proof. exact ds_digest_matches_iff. Qed.
+Print Assumptions ds_digest_is_the_rfc4034_digest_under_the_ceiling.
+
+(* VerifyDS(keyMap, set) returns a nil error exactly when some DS of the set — of a supported digest
+   type and algorithm — names a bucket of the key map holding a key that is a usable candidate for it
+   (tag, algorithm, class, owner, protocol 3, ZONE flag, material under the ceiling) and whose digest
+   the DS carries as a non-empty, well-formed hexadecimal string of any length.  For every key map,
+   every DS set (digest types 0..255, digest fields of any length and spelling). *)
+Theorem verify_ds_accepts_exactly_a_supported_ds_matching_a_usable_key : forall (H : N -> list N -> list N) km dss,
+  snd (verify_ds H km dss) = true <->
+  exists d k, In d dss /\ is_supported_ds d = true /\
+    exists bucket want, find (fun p => fst p =? d_keytag d) km = Some bucket /\ In k (snd bucket)
+      /\ usable_ds_candidate d k = true
+      /\ hex_decode (d_digest d) = Some want /\ want <> [] /\ ds_digest_matches H k (d_dt d) want = true.
+Proof. exact verify_ds_accepts_iff. Qed.
+Print Assumptions verify_ds_accepts_exactly_a_supported_ds_matching_a_usable_key.
+
+(* RFC 6840 5.2: "unsupported only" is reported exactly for a non-empty set without a single supported DS *)
+Theorem verify_ds_unsupported_only_exactly_without_a_supported_ds : forall (H : N -> list N -> list N) km dss,
+  fst (verify_ds H km dss) = true <-> dss <> [] /\ forall d, In d dss -> is_supported_ds d = false.
+Proof. exact verify_ds_unsupported_only_iff. Qed.
+Print Assumptions verify_ds_unsupported_only_exactly_without_a_supported_ds.
+
+(* The walk as the code performs it — DS records de-duplicated by identity and visited in ascending
+   order, candidate keys de-duplicated and sorted, the error of the last supported record kept — has
+   the verdict above: repetition and order of the set and of the buckets only select WHICH error is
+   reported.  For DS owners that are fully qualified (every name out of the wire decoder is);
+   ds_order_needs_fqdn_owners in Proofs_examples.v shows the hypothesis is needed. *)
+Theorem ds_set_order_and_repetition_only_select_the_error : forall (H : N -> list N -> list N) km dss,
+  (forall d, In d dss -> is_fqdn (d_name d) = true) ->
+  (fst (verify_ds_code H km dss), snd (verify_ds_code H km dss) =? 0) = verify_ds H km dss.
+Proof. exact verify_ds_code_verdict. Qed.
+Print Assumptions ds_set_order_and_repetition_only_select_the_error.
+
+(* and the error is nil, or one of the three documented ones with its meaning: 3 (cannot convert) for a
+   non-empty set without a supported DS, 2 (mismatch) only when some supported DS of the set found a
+   usable candidate or an unreadable digest, 1 (missing KSK) otherwise *)
+Theorem verify_ds_error_is_one_of_the_documented : forall (H : N -> list N -> list N) km dss,
+  let r := verify_ds_code H km dss in
+  (snd r = 0 /\ fst r = false) \/
+  (snd r = 3 /\ fst r = true /\ dss <> [] /\ forall d, In d dss -> is_supported_ds d = false) \/
+  (snd r = 1 /\ fst r = false) \/
+  (snd r = 2 /\ fst r = false /\ exists d, In d dss /\ is_supported_ds d = true /\ ds_step H km d = 2).
+Proof. exact verify_ds_code_values. Qed.
+Print Assumptions verify_ds_error_is_one_of_the_documented.
+
+(* DSMatchedKeys (what the resolver anchors a child's DNSKEY RRset on) returns only keys of the key map
+   that some supported DS of the set, carrying the bucket's tag, vouches for by itself *)
+Theorem ds_matched_keys_are_vouched_for : forall (H : N -> list N -> list N) km dss tag ks k,
+  (forall d, In d dss -> is_fqdn (d_name d) = true) ->
+  In (tag, ks) (ds_matched_keys H km dss) -> In k ks ->
+  (exists bucket, In (tag, bucket) km /\ In k bucket) /\
+  exists d, In d dss /\ d_keytag d = tag /\ is_supported_ds d = true /\
+    exists bucket want, find (fun p => fst p =? d_keytag d) [(tag, [k])] = Some bucket /\ In k (snd bucket)
+      /\ usable_ds_candidate d k = true
+      /\ hex_decode (d_digest d) = Some want /\ want <> [] /\ ds_digest_matches H k (d_dt d) want = true.
+Proof. exact ds_matched_keys_sound. Qed.
+Print Assumptions ds_matched_keys_are_vouched_for.
 
 (* (7) Source ties.  The loops and byte-level helpers of the Go code, as the translator reads them
    from /repo on every run (Gen/C14.v), compute what the model's functions compute: a change of the
